@@ -136,8 +136,16 @@ func vf01ApplyMutators(t *rapid.T, uc *UConn, m *vf01Model) {
 			if err := uc.SetClientRandom(r); err != nil {
 				t.Fatalf("SetClientRandom: %v", err)
 			}
-			m.random = r
-			m.kinds = append(m.kinds, "random")
+			m.random = append([]byte(nil), r...)
+			if rapid.Bool().Draw(t, l+"_reuse_buffer") {
+				// the caller's buffer is its own: reusing it afterwards must not change the value that was set
+				for j := range r {
+					r[j] ^= 0xa5
+				}
+				m.kinds = append(m.kinds, "random-buffer-reused")
+			} else {
+				m.kinds = append(m.kinds, "random")
+			}
 		case 1:
 			name := vfGenDNSName(t, l+"_sni")
 			uc.SetSNI(name)
